@@ -2,6 +2,7 @@ package typescript
 
 import (
 	"fmt"
+	"strings"
 
 	an "github.com/benoitkugler/gomacro/analysis"
 	gen "github.com/benoitkugler/gomacro/generator"
@@ -551,6 +552,12 @@ func Check() {
 }
 `
 
+// c03Tier adapts the bounds of the checking file to the tier (recursion depth of the nested value, string lengths).
+func c03Tier(check string) string {
+	check = strings.ReplaceAll(check, "mkInner(\"in\", 2)", fmt.Sprintf("mkInner(\"in\", %d)", vfParam("C03.depth", 2)))
+	return strings.ReplaceAll(check, ", 0, 2, \"alnum\")", fmt.Sprintf(", 0, %d, \"alnum\")", vfParam("C03.strlen", 2)))
+}
+
 // HC03_exec: JSON documents emitted by Go (through the generated union wrappers) inhabit the generated TypeScript types.
 func HC03_exec() {
 	pkg := vfTypeCheck("example.com/mod/p", []string{"/m/p/p.go"}, []string{c03Decls}, nil)
@@ -567,7 +574,7 @@ func HC03_exec() {
 	}
 	text := "package p\n\nconst tsText = " + fmt.Sprintf("%q", tsText) + "\n"
 	errs := vfExec("example.com/mod/p", []string{"/m/p/p.go", "/m/p/gen.go", "/m/p/ts.go", "/m/p/checker.go", "/m/p/check.go"},
-		[]string{c03Decls, goText, text, c03Checker, c03Check}, nil, "Check")
+		[]string{c03Decls, goText, text, c03Checker, c03Tier(c03Check)}, nil, "Check")
 	if len(errs) > 0 {
 		vfObserve("error", errs[0])
 	}
